@@ -482,6 +482,8 @@ class DeepCopyMethod(MethodDescriptor):
         for attr, value in self.__dict__.items():
             if inspect.ismethod(value) and value.__self__ is self:
                 continue
+            if attr == "__spec_class_initializing__":
+                continue  # A copy taken during `__post_init__` is not itself being initialised.
             attr_spec = self.__spec_class__.attrs.get(attr)
             if attr_spec and attr_spec.do_not_copy:
                 new.__dict__[attr] = value
